@@ -14,6 +14,7 @@ import (
 	"go/token"
 	"go/types"
 	"math/big"
+	"os"
 	"sort"
 	"strings"
 
@@ -278,6 +279,9 @@ func (pe *pathEnum) inlineFrom(b *ssa.BasicBlock, i int, blocks []*ssa.BasicBloc
 				if cp.Ret != nil {
 					if len(cp.Ret.Results) == 1 {
 						nx.subT[call] = env.Term(cp.Ret.Results[0])
+						if os.Getenv("VERIF_DEBUG") == "ifs" {
+							fmt.Fprintf(os.Stderr, "INL %s -> %s  via %s  (callee conds: %s)\n", sc.Name(), shorten(nx.subT[call].String(), 60), cp.Ret.Results[0].Name(), shorten(cp.CondString(), 200))
+						}
 					} else if call.Referrers() != nil {
 						for _, r := range *call.Referrers() {
 							if ex, ok := r.(*ssa.Extract); ok && ex.Index < len(cp.Ret.Results) {
@@ -293,7 +297,7 @@ func (pe *pathEnum) inlineFrom(b *ssa.BasicBlock, i int, blocks []*ssa.BasicBloc
 						continue
 					}
 					ct := foldCond(env.Term(pc.At.Cond))
-					truth := cp.truthAt(pc.At)
+					truth := cp.truthOf(pc.At)
 					if ct.K == "const" && ct.C != nil && ct.C.Kind() == constant.Bool {
 						if constant.BoolVal(ct.C) != truth {
 							dead = true
@@ -330,6 +334,9 @@ func (pe *pathEnum) inlineFrom(b *ssa.BasicBlock, i int, blocks []*ssa.BasicBloc
 		pe.walk(b.Succs[0], b, blocks, conds, phi, onPath, x)
 	case *ssa.If:
 		ct := foldCond(env.Term(t.Cond))
+		if os.Getenv("VERIF_DEBUG") == "ifs" {
+			fmt.Fprintf(os.Stderr, "IF %s b%d: %s   [%d conds]\n", b.Parent().Name(), b.Index, shorten(ct.String(), 100), len(conds))
+		}
 		if ct.K == "const" && ct.C != nil && ct.C.Kind() == constant.Bool {
 			if constant.BoolVal(ct.C) {
 				pe.walk(b.Succs[0], b, blocks, conds, phi, onPath, x)
@@ -384,6 +391,48 @@ func foldCond(t *T) *T {
 		}
 	}
 	return t
+}
+
+// truthOf: truthAt, looking into the helper paths spliced into this one for a branch of a helper's helper.
+func (d *DPath) truthOf(iff *ssa.If) bool {
+	b := iff.Block()
+	for _, pb := range d.Blocks {
+		if pb == b {
+			return d.truthAt(iff)
+		}
+	}
+	for _, in := range d.Inl {
+		if in == nil || in == d {
+			continue
+		}
+		for _, pb := range in.Blocks {
+			if pb == b {
+				return in.truthAt(iff)
+			}
+		}
+	}
+	for _, in := range d.Inl {
+		if in != nil && in != d && len(in.Inl) > 0 {
+			for _, pb := range in.allBlocks(0) {
+				if pb == b {
+					return in.truthOf(iff)
+				}
+			}
+		}
+	}
+	return d.truthAt(iff)
+}
+
+func (d *DPath) allBlocks(depth int) []*ssa.BasicBlock {
+	out := append([]*ssa.BasicBlock{}, d.Blocks...)
+	if depth < 3 {
+		for _, in := range d.Inl {
+			if in != nil && in != d {
+				out = append(out, in.allBlocks(depth+1)...)
+			}
+		}
+	}
+	return out
 }
 
 // truthAt: which way the path went at a branch (true = first successor).
